@@ -213,6 +213,12 @@ func (blockchain *Blockchain) initState() {
 		blockchain.executor = GetExecutor(v.Name)
 	}
 
+	if currentHeight != 0 && currentHeight == initialHeight {
+		// Restarted between InitChain and the first block: InitChain recalculated
+		// stakes and validators after its own commit and left the result to be
+		// persisted by the first block; rebuild that pending state.
+		blockchain.updateValidators()
+	}
 }
 
 // InitChain initialize blockchain with validators and other info. Only called once.
